@@ -469,6 +469,12 @@ FN = {
                 keep={"reset", "fault_obs", "fault_after", "harness_error"},
                 invs=["C15_outcome", "C15_residue"], cov=["C15_early", "C15_late", "C15_stall", "C15_custom", "C15_after"],
                 sizes={"quick": {"VERIF_SUITE": "faults", "VERIF_N": "1200"}, "thorough": {"VERIF_SUITE": "faults", "VERIF_N": "30000"}}, rule=REQ_RULE),
+    "C19": dict(test="TestReqSuite", module="AccessLogTrace.tla", cfg="AccessLogTrace.cfg", mc=("AccessLog.tla", "AccessLog.cfg"),
+                keep={"reset", "log_obs", "harness_error"},
+                invs=["C19_count", "C19_status", "C19_bytes", "C19_req", "C19_service", "C19_target", "C19_hdrs"],
+                cov=["C19_served", "C19_early", "C19_cut", "C19_notfound", "C19_stopped", "C19_pausedout", "C19_redirect", "C19_tlsrefused", "C19_fault502", "C19_fault504",
+                     "C19_overflow413", "C19_overflow500", "C19_abort", "C19_upgrade"],
+                sizes={"quick": {"VERIF_SUITE": "accesslog", "VERIF_N": "1200"}, "thorough": {"VERIF_SUITE": "accesslog", "VERIF_N": "30000"}}, rule=REQ_RULE),
     "C10": dict(test="TestRolloutFn", module="RolloutTrace.tla", cfg="RolloutTrace.cfg", mc=("Rollout.tla", "Rollout.cfg"),
                 keep={"reset", "rollout_obs", "rollout_end", "harness_error"},
                 invs=["C10_fn", "C10_off", "C10_optin", "C10_allow", "C10_share"], cov=["C10_fn", "C10_allow", "C10_optin", "C10_off"],
